@@ -61,7 +61,14 @@ pub enum Op {
     UpdDistributor { which: usize, grace: Option<u64>, duration: Option<u64> },
     InstEpochManager { duration: u64 },
     UpdEpochManager { which: usize, duration: Option<u64> },
-    InstLair { growth: String, natives: usize, cw20: bool },
+    InstLair {
+        growth: String,
+        natives: usize,
+        cw20: bool,
+        /// how many times the first denom is listed again (the list may name the same asset more than once)
+        #[serde(default)]
+        repeat_first: usize,
+    },
     UpdLair { which: usize, growth: Option<String>, unbonding: Option<u64> },
     UpdCollector { take_rate: Option<String>, active: Option<bool> },
     Blocks { n: u64 },
@@ -498,7 +505,7 @@ impl Scenario for AllCfg {
             }
             27 => Op::InstEpochManager { duration: *rng.pick(&[0u64, 1, DAY_NS - 1, DAY_NS, DAY_NS + 1, u64::MAX]) },
             28 | 29 => Op::UpdEpochManager { which: rng.idx(self.ems.len().max(1)), duration: if rng.chance(4, 5) { Some(*rng.pick(&[0u64, 1, DAY_NS - 1, DAY_NS, DAY_NS + 1, 3 * DAY_NS, u64::MAX])) } else { None } },
-            30 => Op::InstLair { growth: gen_share(rng), natives: rng.range(0, 3) as usize, cw20: rng.chance(1, 5) },
+            30 => Op::InstLair { growth: gen_share(rng), natives: rng.range(0, 3) as usize, cw20: rng.chance(1, 5), repeat_first: if rng.chance(1, 3) { rng.range(1, 3) as usize } else { 0 } },
             31 => Op::UpdLair { which: rng.idx(self.lairs.len().max(1)), growth: if rng.chance(4, 5) { Some(gen_share(rng)) } else { None }, unbonding: if rng.chance(1, 3) { Some(rng.range(0, 3_000_000_000_000)) } else { None } },
             32 => Op::UpdCollector { take_rate: if rng.chance(5, 6) { Some(gen_share(rng)) } else { None }, active: if rng.chance(1, 3) { Some(rng.chance(1, 2)) } else { None } },
             // (also a little over half of the usual ramp lengths: a new ramp started in the second half of
@@ -790,8 +797,14 @@ impl AllCfg {
                     }
                 }
             }
-            Op::InstLair { growth, natives, cw20 } => {
+            Op::InstLair { growth, natives, cw20, repeat_first } => {
                 let mut assets: Vec<AssetInfo> = ["ampwhale", "bwhale", "cwhale"].iter().take(*natives).map(|d| native(d)).collect();
+                if let Some(first) = assets.first().cloned() {
+                    for k in 0..*repeat_first {
+                        // once at the end, once in the middle
+                        if k % 2 == 0 { assets.push(first.clone()) } else { assets.insert(1, first.clone()) }
+                    }
+                }
                 if *cw20 {
                     if let Some(i) = self.h.first_cw20() {
                         assets.push(self.h.assets[i].clone());
